@@ -84,7 +84,7 @@ pub fn run(ctx: &Ctx) -> i32 {
     );
 
     // character level (names are not pre-tokenised): includes a multi-byte character and a tab
-    let chars = ["a", "c", "p", "_", "é", "=", "+", "e", " ", ",", "\t", "A", "\u{b}", "\u{a0}", "\u{2003}", "\u{85}"];
+    let chars = ["a", "c", "p", "_", "é", "=", "+", "e", " ", ",", "\t", "A", "\u{b}", "\u{a0}", "\u{2003}", "\u{85}", "\n", "\r"];
     // 'all' spelled with characters that only Unicode case mapping turns into its letters: none exist for a/l, but the
     // clause grammar is exercised with such characters in flag and operator positions too
     let lookalikes = ["\u{17f}", "\u{131}", "\u{212a}", "\u{130}", "\u{df}", "\u{ff45}", "\u{ff1d}"];
@@ -262,6 +262,35 @@ pub fn run(ctx: &Ctx) -> i32 {
             }
         }
     }));
+    // the same for texts whose clauses are separated and surrounded by every kind of ASCII white space
+    let mut b = b;
+    for t in ["cap_chown=p\n", "\ncap_chown=p", "cap_chown=p\r\n", "cap_chown=p\tcap_kill+e", "cap_chown=p  cap_kill+e", " cap_chown=p ", "cap_chown=p\n\ncap_kill=e\n", "=\n", "cap_chown=p \t\r\n"] {
+        if !accepts(t) {
+            continue;
+        }
+        b.evals += 1;
+        let case = json!({"text": t, "via": "built package"});
+        let r = catch(|| -> Result<Option<String>, String> {
+            let opts = rpm::FileOptions::new("/f").caps(t).map_err(|e| e.to_string())?;
+            let pkg = rpm::PackageBuilder::new("t", "1", "MIT", "noarch", "s").compression(rpm::CompressionType::None).with_file(&src, opts).map_err(|e| e.to_string())?.build().map_err(|e| e.to_string())?;
+            let mut out = vec![];
+            pkg.write(&mut out).map_err(|e| e.to_string())?;
+            let back = rpm::Package::parse(&mut &out[..]).map_err(|e| e.to_string())?;
+            let fe = back.metadata.get_file_entries().map_err(|e| e.to_string())?;
+            Ok(fe.get(0).and_then(|f| f.caps.clone()))
+        });
+        match r {
+            Err(p) => b.viol(panic_violation("built", &p, case)),
+            Ok(Err(e)) => b.count(&format!("error: {}", e.chars().take(40).collect::<String>())),
+            Ok(Ok(got)) => {
+                if got.as_deref() != Some(t) {
+                    b.viol(Violation::new("built", format!("caps {:?} read back as {:?}", t, got), case).sig("clause", "verbatim-in-package"));
+                }
+                b.nontrivial += 1;
+                b.count("round-tripped");
+            }
+        }
+    }
     let _ = std::fs::remove_dir_all(&dir);
     let s2 = SubReport::new("built", "A", "every grammar-accepted text of ≤ 3 (thorough 4) tokens given to FileOptions::caps, built, written, parsed: FILECAPS of the file equals the text", b);
     ctx.finish(
